@@ -276,9 +276,42 @@ pub fn migrate(clock: Arc<uhlc::HLC>, conn: &mut Connection) -> rusqlite::Result
     let migrations: Vec<Box<dyn Migration>> = vec![
         Box::new(init_migration as fn(&Transaction) -> rusqlite::Result<()>),
         Box::new(crsqlite_v0_17_migration(clock)),
+        Box::new(buffered_changes_val_migration as fn(&Transaction) -> rusqlite::Result<()>),
     ];
 
     crate::sqlite::migrate(conn, migrations)
+}
+
+// `val ANY` gives the column NUMERIC affinity (the table is not STRICT): a buffered text value that
+// looks like a number ('007', '1e3') was stored as a number and came back altered when the buffered
+// version was applied. A column without a declared type keeps every value exactly as it was sent.
+fn buffered_changes_val_migration(tx: &Transaction) -> rusqlite::Result<()> {
+    tx.execute_batch(
+        r#"
+            CREATE TABLE __corro_buffered_changes_new (
+                "table" TEXT NOT NULL,
+                pk BLOB NOT NULL,
+                cid TEXT NOT NULL,
+                val,
+                col_version INTEGER NOT NULL,
+                db_version INTEGER NOT NULL,
+                site_id BLOB NOT NULL,
+                seq INTEGER NOT NULL,
+                cl INTEGER NOT NULL,
+                ts TEXT NOT NULL,
+
+                PRIMARY KEY (site_id, db_version, seq)
+            ) WITHOUT ROWID;
+
+            INSERT INTO __corro_buffered_changes_new
+                SELECT "table", pk, cid, val, col_version, db_version, site_id, seq, cl, ts
+                    FROM __corro_buffered_changes;
+
+            DROP TABLE __corro_buffered_changes;
+
+            ALTER TABLE __corro_buffered_changes_new RENAME TO __corro_buffered_changes;
+        "#,
+    )
 }
 
 fn init_migration(tx: &Transaction) -> rusqlite::Result<()> {
